@@ -645,7 +645,26 @@ _LATER = {
     "C20": "a threaded layer: one setter thread and 1..4 subscriber threads (fast and slow ones) whose wakers unpark them, 1..60 sets, both crates; thorough: the same under ThreadSanitizer (filtered to /repo frames)",
     "C18": "floods through the transport (one call per read) under a cooperative budget of 1..8 transport operations per poll; a call behind a stream is ready once the stream closed and its items are out; real sockets: an order that looks unfair must repeat with a grace period of 2..200 ms for the reactor before it is reported",
 }
+_ROUND8 = {
+    "C01": "real sockets: the peer hangs up with a message of ours unread (connection reset behind its last frame)",
+    "C02": "chains among the operations of a history (sent at once, or started and given up)",
+    "C03": "collect_seq / collect_map among the value shapes",
+    "C04": "error frames with the widest integers, long floats, long runs of digits; error parameters whose strings carry JSON escapes",
+    "C05": "a call type with 128-bit integers (decode reference in the member order of the judged document)",
+    "C06": "connection histories with refused messages, a chain exchange, an abandoned receive; streams given up after some of their items (the rest is received afterwards)",
+    "C08": "calls answered with a reply that cannot be encoded (no later answer may take the place of the missing one); answers are on the wire before 3(N+1)+6 further calls were handled",
+    "C09": "write failures of other kinds (send timeout, would-block, interrupted, broken pipe), sticky Interrupted read errors",
+    "C10": "write failures of other kinds; a busy stream (40..300 ready items) next to a caller whose call must be handled before more than 3(N+1)+6 items went out",
+    "C11": "held items are re-read after every poll that received nothing (own signature)",
+    "C13": "carriage returns as white space and line ends",
+    "C14": "carriage returns as white space and line ends; the exchange also through the chain API of the standard interface",
+    "C16": "the parser has refused hundreds of texts before the first derived description is parsed back",
+    "C17": "long histories (several times the limit in total, stray terminators) before the frame under test; production limit: a batch of small calls up to 72 MiB (thorough: up to the limit) accepted and flushed in one write",
+    "C18": "answers are on the wire before 3(N+1)+6 further calls were handled; real sockets: a long burst (300..500 calls) with a call arriving in the middle of it must be noticed within 200 calls (single-threaded runtimes)",
+}
 for _k, _v in _LATER.items():
+    PROPS[_k]["rule"] = PROPS[_k]["rule"] + " ; " + _v
+for _k, _v in _ROUND8.items():
     PROPS[_k]["rule"] = PROPS[_k]["rule"] + " ; " + _v
 PROPS["C20"]["oracle"] += ("; threads: a poll may answer Pending only if no set that returned before the poll began stored a value different "
                             "from the one the subscriber holds; a parked subscriber's waker must have fired once such a set has returned, "
